@@ -1073,7 +1073,7 @@ func (t *tr) stmts(list []ast.Stmt, tail []string) []string {
 				if sel, isSel := x.Lhs[j].(*ast.SelectorExpr); isSel && x.Tok == token.ASSIGN {
 					if rid := t.rootIdent(sel); rid != nil {
 						if v, isVar := t.f.pkg.TypesInfo.Uses[rid].(*types.Var); isVar && kindOf(v.Type()) == kOpaque {
-							if lk := kindOf(t.typeOf(sel)); lk == kDec || lk == kInt || lk == kMach || lk == kBool {
+							if lk := kindOf(t.typeOf(sel)); lk == kDec || lk == kInt || lk == kMach || lk == kBool || lk == kCoins {
 								val := t.expr(b, x.Rhs[j])
 								tmp := t.fresh()
 								b.add(fmt.Sprintf("let %s := %s", tmp, val))
@@ -1342,8 +1342,14 @@ func (t *tr) function() string {
 			}
 		}
 		tailLines := []string{"pure true"}
+		resultField := ""
 		if rv, ok := windowResult[f.spec.Lean]; ok {
 			tailLines = []string{"pure " + ident(rv)}
+			if strings.HasPrefix(rv, "=") {
+				// the value the window assigns to a field of an opaque variable (`=params.TotalCommitted`)
+				resultField = rv[1:]
+				tailLines = []string{"pure __FIELD__"}
+			}
 		}
 		start := len(list)
 		if f.spec.Until != "" {
@@ -1397,7 +1403,7 @@ func (t *tr) function() string {
 						return true
 					}
 					switch kindOf(v.Type()) {
-					case kDec, kInt, kMach:
+					case kDec, kInt, kMach, kCoins, kDecCoins:
 						seen[id.Name] = true
 						params = append(params, fmt.Sprintf("(%s : Int)", ident(id.Name)))
 						f.preLocals = append(f.preLocals, id.Name)
@@ -1429,6 +1435,15 @@ func (t *tr) function() string {
 				f.free, f.freeT, f.freeK, f.freeN = nil, map[string]string{}, map[string]kind{}, map[string]string{}
 				f.alias, f.skipped, f.tmp, f.fieldSet = map[string]ast.Expr{}, nil, 0, map[string]string{}
 				lines := t.stmts(list[first:n], tailLines)
+				if resultField != "" {
+					v, ok := f.fieldSet[resultField]
+					if !ok {
+						panic(translErr{f.spec.Func + ": the window does not assign " + resultField})
+					}
+					for i := range lines {
+						lines[i] = strings.ReplaceAll(lines[i], "__FIELD__", v)
+					}
+				}
 				body = append(pre, lines...)
 				f.prefixLen = n
 				done = true
